@@ -244,10 +244,11 @@ def violatedC07 (p : Prog) : List String :=
 def Step.isBagStep : Step → Bool
   | .wher _ => true
   | .select _ => true
+  | .distinct => true
   | _ => false
 
 /-- what PySpark requires of a program (union-compatible operands, resolvable column names);
-    the further steps are `where` / `select` (the bag-determined ones) -/
+    the further steps are `where` / `select` / `distinct` (bag-determined ones) -/
 def Prog.WF (env : List Table) : Prog → Prop
   | .base i => i < env.length ∧ (env.getD i errTable).WF
   | .step p s => p.WF env ∧ s.isBagStep = true ∧ s.WF (p.spec env).cols
